@@ -54,6 +54,7 @@ class Ctx:
         self.counters: Dict[str, int] = {}
         # function located by its role (a renamed private helper) -> the name findings about it are keyed by
         self.alias: Dict[str, str] = {}
+        self.deferred: List[AnalysisError] = []
 
     # -- obligations -------------------------------------------------------
     def ok(self, rule: str, where: str, what: str, **extra: Any) -> None:
@@ -126,6 +127,18 @@ class Ctx:
 
     def note(self, s: str) -> None:
         self.notes.append(s)
+
+    def attempt(self, rule_fn: Callable[..., None], *args: Any) -> None:
+        """Run one rule; an ANALYSIS-ERROR of this rule does not stop the rules after it (they may still find
+        violations, which are then reported); the first deferred error is raised by `settle()` at the end."""
+        try:
+            rule_fn(*args)
+        except AnalysisError as e:
+            self.deferred.append(e)
+
+    def settle(self) -> None:
+        if self.deferred:
+            raise self.deferred[0]
 
 
 def load_known_findings() -> Dict[str, Dict[str, Any]]:
